@@ -175,7 +175,7 @@ def check(tier):
     for t in ["three_way_agreement", "three_way_agreement_guarded", "position_automaton_examples", "position_automaton_accepts_exactly_the_language",
               "tree_language_is_its_expression", "checked_automaton_is_the_position_automaton_of_its_tree", "followpos_example",
               "quantified_tree_denotes_the_documented_repetition", "quantify_example", "tree_of_a_pattern_denotes_its_documented_meaning",
-              "direct_route_is_the_documented_meaning_of_the_pattern", "accumulated_follow_table_is_followpos"]:
+              "direct_route_is_the_documented_meaning_of_the_pattern", "accumulated_follow_table_is_followpos", "nullable_iff_the_empty_string_is_matched"]:
         rep.obligation("Props/C10.v: " + t, ok)
     rep.cov["print_assumptions"] = "Closed under the global context x%d" % log.count("Closed under the global context") if ok else "n/a"
 
